@@ -257,6 +257,8 @@ func (e *Engine) runItem(base *State, it Item) (res *ItemResult) {
 	}
 	st := base.clone()
 	e.pushFrame(st, fn, nil, nil, nil)
+	e.solver.restart() // fresh solver process per item: accumulated global definitions slow z3 down
+	e.solver.restarts--
 	e.solver.Push()
 	e.explore(st)
 	e.solver.Pop()
